@@ -30,7 +30,7 @@ func c14written(table []KV) []string {
 	}
 	for _, kv := range table {
 		w = append(w, kv.K, `"`+kv.K+`"`)
-		for _, suf := range []string{"pk", "pkg", "a/pkg", "b/pkg", "p-k.g", "ab", "errors"} {
+		for _, suf := range []string{"pk", "pkg", "a/pkg", "b/pkg", "p-k.g", "ab", "errors", "sub"} {
 			w = append(w, kv.K+"/"+suf)
 		}
 	}
@@ -94,7 +94,9 @@ func c14cfg(table []KV, pos int, r c14ref, base c14ref) (*Cfg, map[string]string
 	s := Service{Name: "sut", Constructor: P(q(0)), Type: P("*" + q(1)), Args: []any{"!value " + q(2)}, Tags: []Tag{{Name: "tg"}}, Getter: P("GetSut")}
 	cfg.Decorators = []Decorator{{Tag: "tg", Decorator: q(3)}}
 	cfg.Meta.Functions = []KV{{"myfn", q(4)}}
-	cfg.Params = []Param{{"p", "%myfn()%"}, {"q", `%env("X", "d")%:%envInt("Y", 1)%%todo()%`}}
+	// the registered function is used several times (parameters and a service argument): one import, one local name
+	cfg.Params = []Param{{"p", "%myfn()%"}, {"q", `%env("X", "d")%:%envInt("Y", 1)%%todo()%`}, {"p2", "<%myfn(2)%|%myfn(3)%>"}}
+	s.Args = append(s.Args, `%myfn("again")%`)
 	cfg.Services = []Service{s, {Name: "val", Value: P(q(5))}, {Name: "typedNoGetter", Constructor: P(base.written + ".New2"), Type: P("*" + q(6))}}
 	// a type is only printed in getters: without a getter nothing of that package may remain in the file
 	delete(want, "T2")
